@@ -84,6 +84,7 @@ type world struct {
 	// statistics
 	nreq, nunauth int
 	codes         map[int]int
+	codesUnauth   map[int]int
 	suspects      map[string]int
 }
 
@@ -121,7 +122,7 @@ func main() {
 	cs.InstallExit()
 	seed := vh.Seed()
 	setupDb()
-	tot := &world{codes: map[int]int{}, suspects: map[string]int{}}
+	tot := &world{codes: map[int]int{}, codesUnauth: map[int]int{}, suspects: map[string]int{}}
 	for s := 0; s < nscen; s++ {
 		if s > 0 {
 			tr.Reset()
@@ -134,6 +135,9 @@ func main() {
 		for k, v := range w.codes {
 			tot.codes[k] += v
 		}
+		for k, v := range w.codesUnauth {
+			tot.codesUnauth[k] += v
+		}
 		for k, v := range w.suspects {
 			tot.suspects[k] += v
 		}
@@ -144,7 +148,7 @@ func main() {
 		sus = append(sus, fmt.Sprintf("%s:%d", k, v))
 	}
 	vh.Summary("scenarios", nscen, "requests", tot.nreq, "unauth_requests", tot.nunauth,
-		"codes_covered", len(tot.codes), "events", tr.N, "suspects", strings.Join(sus, " "))
+		"codes_covered", len(tot.codes), "codes_unauth", len(tot.codesUnauth), "events", tr.N, "suspects", strings.Join(sus, " "))
 }
 
 // one database and one dbms for the life of the process, as in the real server
@@ -173,7 +177,7 @@ func newWorld(tr *vh.Trace, seed int64) *world {
 	db, d := theDb, theDbms
 	w := &world{rnd: rand.New(rand.NewSource(seed)), tr: tr, db: db, d: d, th: core.NewThread(nil),
 		nonces: map[string]int{}, tokens: map[string]int{},
-		codes: map[int]int{}, suspects: map[string]int{}}
+		codes: map[int]int{}, codesUnauth: map[int]int{}, suspects: map[string]int{}}
 	w.observe()
 	tr.Emit(vh.E("Start", "db", w.lastDb, "nconn", 3))
 	w.connectVictim()
@@ -255,6 +259,10 @@ func (w *world) emit(c int, addr string, sid int, code int, variant string, garb
 	}
 	w.nreq++
 	w.codes[code]++
+	if c > 1 && !w.raw[c-2].authed {
+		w.nunauth++
+		w.codesUnauth[code]++
+	}
 	w.tr.Emit(vh.E("Req", "c", c, "s", sid, "cmd", cmdName(code), "code", code, "var", variant,
 		"garbled", garbled, "cred", cr.js(), "target", target, "cls", cls, "res", res,
 		"db", w.lastDb, "oth0", cs.OthersDigest(prev, hostOf(addr)), "oth1", cs.OthersDigest(w.lastCon, hostOf(addr)),
@@ -715,7 +723,7 @@ func (w *world) authReq(rc *rawc) req {
 		if !rc.knows {
 			s = cs.AuthString(goodUser, "", "")
 		}
-	case k <= 9:
+	case k <= 8:
 		tok, tid := pickTok()
 		if tid == 0 {
 			tok = "0123456789abcdef"
@@ -723,7 +731,7 @@ func (w *world) authReq(rc *rawc) req {
 		q.variant = "token"
 		s = tok
 		q.cr = cred{k: "tok", t: tid}
-	case k == 10:
+	case k <= 10:
 		q.variant = "junk"
 		s = w.pick("", "x", goodUser, goodUser+"\x00", "\x00", strings.Repeat("\xff", 16), "nosuchuser\x00")
 		q.cr = noCred
@@ -764,6 +772,36 @@ func (w *world) garble(q req) req {
 	return q
 }
 
+// disconnect closes a protocol-level connection from the client side
+func (w *world) disconnect(rc *rawc) {
+	if rc.r.Dead {
+		return
+	}
+	host := hostOf(rc.r.Addr)
+	rc.r.Close()
+	w.waitConns(func(m map[string][]string) bool { _, ok := m[host]; return !ok })
+	w.tr.Emit(vh.E("Disconnect", "c", rc.idx))
+	w.observe()
+}
+
+// unauthRaw returns a protocol-level connection that is not authorised
+// (reconnecting one if all are)
+func (w *world) unauthRaw() *rawc {
+	var cand []*rawc
+	for _, rc := range w.raw {
+		if !rc.authed && !rc.r.Dead {
+			cand = append(cand, rc)
+		}
+	}
+	if len(cand) > 0 {
+		return cand[w.rnd.Intn(len(cand))]
+	}
+	rc := w.raw[w.rnd.Intn(len(w.raw))]
+	w.disconnect(rc)
+	w.connectRaw(rc.idx)
+	return w.raw[rc.idx-2]
+}
+
 func (w *world) rawStep(rc *rawc, code int) {
 	if rc.r.Dead {
 		// reconnect as a fresh (unauthorised) connection
@@ -798,8 +836,11 @@ func (w *world) rawStep(rc *rawc, code int) {
 		rc.authed = true
 	}
 	// probe: is the connection authorised now?  (Final goes through the wrapper)
-	if w.rnd.Intn(3) == 0 {
-		w.do(rc, sid, req{code: int(commands.Final), variant: "probe", cr: noCred})
+	// always after a malformed Auth: it may have been executed before the error
+	if w.rnd.Intn(3) == 0 || (cmdName(q.code) == "Auth" && cls != "ok") {
+		if pc, _ := w.do(rc, sid, req{code: int(commands.Final), variant: "probe", cr: noCred}); pc == "ok" {
+			rc.authed = true
+		}
 	}
 }
 
@@ -821,10 +862,17 @@ func (w *world) scenario(steps, s int) {
 			w.tr.Emit(vh.E("Expire"))
 		default:
 			rc := w.raw[w.rnd.Intn(len(w.raw))]
+			if rc.authed && w.rnd.Intn(6) == 0 {
+				// an authorised protocol-level connection does not stay for ever
+				w.disconnect(rc)
+				continue
+			}
 			var code int
 			switch m := w.rnd.Intn(10); {
 			case len(sweep) > 0 && m < 5:
+				// the sweep over the command table is for unauthorised connections
 				code, sweep = sweep[0], sweep[1:]
+				rc = w.unauthRaw()
 			case m < 7:
 				code = int(commands.Auth)
 			case m == 7:
@@ -838,6 +886,6 @@ func (w *world) scenario(steps, s int) {
 		}
 	}
 	for _, c := range sweep {
-		w.rawStep(w.raw[w.rnd.Intn(len(w.raw))], c)
+		w.rawStep(w.unauthRaw(), c)
 	}
 }
